@@ -27,6 +27,7 @@ struct State {
     seq: u64,
     events: Vec<String>,
     sink: Option<std::fs::File>,
+    t0: std::time::Instant,
 }
 
 static STATE: Mutex<Option<State>> = Mutex::new(None);
@@ -48,6 +49,7 @@ fn with_state<R>(f: impl FnOnce(&mut State) -> R) -> R {
             seq: 0,
             events: Vec::new(),
             sink,
+            t0: std::time::Instant::now(),
         });
     }
     f(g.as_mut().unwrap())
@@ -61,6 +63,7 @@ pub fn arm(spec: Option<FaultSpec>) {
         s.visits.clear();
         s.seq = 0;
         s.events.clear();
+        s.t0 = std::time::Instant::now();
     })
 }
 
@@ -74,8 +77,12 @@ pub fn event(thread: &str, name: &str, detail: &str) {
     with_state(|s| {
         s.seq += 1;
         let line = format!(
-            "{{\"n\":{},\"p\":\"{}\",\"ev\":\"{}\",\"detail\":\"{}\"}}",
-            s.seq, thread, name, detail
+            "{{\"n\":{},\"t_ms\":{},\"p\":\"{}\",\"ev\":\"{}\",\"detail\":\"{}\"}}",
+            s.seq,
+            s.t0.elapsed().as_millis(),
+            thread,
+            name,
+            detail
         );
         if let Some(f) = s.sink.as_mut() {
             let _ = writeln!(f, "{}", line);
